@@ -57,7 +57,9 @@ RSum(f, S) == IF S = {} THEN <<0, 1>> ELSE LET x == CHOOSE x \in S : TRUE IN RAd
 RECURSIVE ISum(_, _)
 ISum(f, S) == IF S = {} THEN 0 ELSE LET x == CHOOSE x \in S : TRUE IN f[x] + ISum(f, S \ {x})
 RECURSIVE NSum(_, _, _)
-NSum(f, lo, hi) == IF hi < lo THEN 0 ELSE f[hi] + NSum(f, lo, hi - 1)      \* sum of f[lo..hi]
+NSum(f, lo, hi) == IF hi < lo THEN 0                                        \* sum of f[lo..hi], depth log n
+                   ELSE IF lo = hi THEN f[lo]
+                   ELSE LET mid == (lo + hi) \div 2 IN NSum(f, lo, mid) + NSum(f, mid + 1, hi)
 \* floor(|n| * Q / d) with the sign of n, without leaving 32 bits (d * Q < 2^31)
 Quant(r, Q) == LET n == Abs(r[1])
                    v == (n \div r[2]) * Q + ((n % r[2]) * Q) \div r[2]
@@ -174,7 +176,7 @@ Choose ==
   /\ mesh.name = "placed"
   /\ \E c \in Candidates :
        /\ (c.m + 1) * (c.n + 1) <= 16 /\ (c.fam = "block" => c.m >= c.n)
-       /\ c.keep # {} /\ EdgeConnected(BlockT(c.m, c.n), c.keep)
+       /\ Cardinality(c.keep) >= 2 /\ EdgeConnected(BlockT(c.m, c.n), c.keep)   \* (a single triangle is refused by the code: squeeze())
        /\ LET r == Restrict(BlockP(mesh.b, mesh.o, c.m, c.n), BlockT(c.m, c.n), c.keep) IN
             /\ Manifold(r.T)
             /\ mesh' = [name |-> c.fam, b |-> mesh.b, o |-> mesh.o, m |-> c.m, n |-> c.n, keep |-> c.keep, P |-> r.P, T |-> r.T]
